@@ -1,10 +1,11 @@
 #!/bin/sh
-# Builds the framework from files on disk only (offline): translator output, Coq development, harness.
-set -e
+# Builds the framework from files on disk only (offline): translator output, Coq development, harness (controlled runtime and
+# real threads), extraction + replay drivers. Every check rebuilds what depends on /repo again; this only warms the caches.
 cd "$(dirname "$0")"
 export CARGO_NET_OFFLINE=true
 python3 translate/rs2coq.py /repo coq/gen || true
 ( cd coq && coq_makefile -f _CoqProject -o Makefile >/dev/null 2>&1 && timeout 3000 make -k -j16 >/dev/null 2>&1 || true )
 ( cd harness && cargo build --release --offline >/dev/null 2>&1 || true )
-[ -d driver ] && ( cd driver && sh build.sh >/dev/null 2>&1 || true )
+( cd harness && sh real/build.sh >/dev/null 2>&1 || true )
+for d in driver driver/pipein driver/pipe; do [ -f $d/build.sh ] && ( sh $d/build.sh >/dev/null 2>&1 || true ); done
 echo setup done
